@@ -43,6 +43,7 @@ func main() {
 	clients := fs.Int("clients", 3, "conc: client goroutines")
 	maximg := fs.Int("maximg", 0, "conc -crashpoints: crash points per history (0 = 150)")
 	transport := fs.Bool("transport", false, "put the repository's XDR/RPC path (nfstypes + rfc1057 over an in-process pipe) in front of the server")
+	unst := fs.Int("unst", -1, "crash: the server's unstable option (1 on, 0 off, -1 derived from the seed)")
 	sconc := fs.Int("sconc", 0, "simple/kvs: concurrent clients (0 = sequential driver)")
 	access := fs.Bool("access", false, "conc: record lock events and inode accesses instead of the history")
 	sizesFlag := fs.String("sizes", "", "layout: disk sizes, e.g. 1536-1600,32760-32776 (increasing)")
@@ -102,7 +103,7 @@ func main() {
 		profs := strings.Split(*profile, ",")
 		seg := 0
 		for i := 0; i < *nseg; i++ {
-			cfg := drv.CrashCfg{Seed: *seed*1000 + i, Ops: *steps, DiskSz: *disk, Unstable: (*seed+i)%3 != 2, Profile: profs[i%len(profs)],
+			cfg := drv.CrashCfg{Seed: *seed*1000 + i, Ops: *steps, DiskSz: *disk, Unstable: unstOpt(*unst, (*seed+i)%3 != 2), Profile: profs[i%len(profs)],
 				Avoid: avoidSet(*avoid), Loss: *loss, Stride: *stride, Cont: *cont, Nested: *nested, MaxProbe: *maxprobe}
 			seg = drv.RunCrash(cfg, t, seg)
 		}
@@ -282,4 +283,11 @@ func concDisk(crash bool, disk uint64) uint64 {
 		return disk
 	}
 	return 0
+}
+
+func unstOpt(flag int, derived bool) bool {
+	if flag < 0 {
+		return derived
+	}
+	return flag == 1
 }
